@@ -38,13 +38,15 @@ func (w *MultiplexWriter) WriteMsg(tag uint8, p []byte) (n int, err error) {
 type MultiplexReader struct {
 	Env    *rsyncos.Env
 	Reader io.Reader
+
+	// rest is the part of the current data message
+	// which did not fit into the caller's buffer yet.
+	rest []byte
 }
 
-// rsync.h defines IO_BUFFER_SIZE as 32 * 1024, but gokr-rsyncd increases it to
-// 256K. Since we use this as the maximum message size, too, we need to at least
-// match it.
-const ioBufferSize = 256 * 1024
-const maxMessageSize = ioBufferSize
+// The length field of a message header has 24 bits. Data messages larger than
+// the caller's buffer are handed out in pieces (see MultiplexReader.Read).
+const maxMessageSize = 0x00FFFFFF
 
 func (w *MultiplexReader) ReadMsg() (tag uint8, p []byte, err error) {
 	var header uint32
@@ -55,9 +57,6 @@ func (w *MultiplexReader) ReadMsg() (tag uint8, p []byte, err error) {
 	tag = uint8(header>>24) - mplexBase
 	length := header & 0x00FFFFFF
 	if length > maxMessageSize {
-		// NOTE: if you run into this error, one alternative to bumping
-		// maxMessageSize is to restructure the program to work with i/o buffer
-		// windowing.
 		return 0, nil, fmt.Errorf("length %d exceeds max message size (%d)", length, maxMessageSize)
 	}
 	p = make([]byte, int(length))
@@ -70,6 +69,11 @@ func (w *MultiplexReader) ReadMsg() (tag uint8, p []byte, err error) {
 }
 
 func (w *MultiplexReader) Read(p []byte) (n int, err error) {
+	if len(w.rest) > 0 {
+		n = copy(p, w.rest)
+		w.rest = w.rest[n:]
+		return n, nil
+	}
 	tag, payload, err := w.ReadMsg()
 	if err != nil {
 		return 0, err
@@ -86,10 +90,9 @@ func (w *MultiplexReader) Read(p []byte) (n int, err error) {
 	default:
 		return 0, fmt.Errorf("unexpected tag: got %v, want %v", tag, MsgData)
 	}
-	if len(p) < len(payload) {
-		panic(fmt.Sprintf("not enough buffer space! %d < %d", len(p), len(payload)))
-	}
-	return copy(p, payload), nil
+	n = copy(p, payload)
+	w.rest = payload[n:]
+	return n, nil
 }
 
 type Buffer struct {
